@@ -401,6 +401,8 @@ def mc_machine(ck, slice_, maxlen, maxsteps, maxdigits=2, dump=True, timeout=240
                     'SPECIFICATION Spec\nCONSTANTS\n  B = 256\n  Slice = "%s"\n  MaxLen = %d\n  MaxSteps = %d\n  MaxDigits = %d\n  DumpOn = %s\n'
                     'INVARIANT InvNoNaNAtBottom\nINVARIANT InvCanonical\nINVARIANT InvBackwardOnly\nINVARIANT Dump\n'
                     'PROPERTY LabelsWriteOnce\nPROPERTY OutputAppendOnly\nPROPERTY ExitIsFinal\nPROPERTY InputOnlyConsumed\n'
+                    'PROPERTY PcDiscipline\nPROPERTY LastDiscipline\nPROPERTY LabelAtSource\nPROPERTY OneLabelPerStep\nPROPERTY CurDiscipline\n'
+                    'INVARIANT InvStraightLine\nINVARIANT InvOutputStacksEmpty\n'
                     'CONSTRAINT Small\nCHECK_DEADLOCK FALSE\n' % (slice_, maxlen, maxsteps, maxdigits, "TRUE" if dump else "FALSE"))
     n = [0]
     with open(cases, "w") as f:
@@ -658,6 +660,9 @@ def check_c01(pid, tier, seed, replay):
     rng = random.Random(seed)
     plan = [("arithq", 3, 8), ("controlq", 3, 12), ("io", 2, 8), ("io3", 3, 10)] if quick else \
            [("arith", 3, 12), ("control", 3, 14), ("controlq", 4, 14), ("io", 3, 12)]
+    # (M only) control-flow discipline where return jumps to a non-label command are reachable (PcDiscipline is not
+    # vacuous there: dropping its return-jump disjunct is refuted in this slice)
+    mc_machine(ck, "ret", 5, 14, dump=False)
     for slice_, ml, steps in plan:
         cases, n = mc_machine(ck, slice_, ml, steps)
         if n > 600000:
